@@ -600,6 +600,13 @@ func (tm *TileMatrix) UnmarshalJSONFromMap(data interface{}) error {
 		return fmt.Errorf(`data is not a map but a %T`, data)
 	}
 
+	// negative numbers would silently wrap around in the unsigned sizes
+	for _, key := range []string{"tileWidth", "tileHeight", "matrixWidth", "matrixHeight"} {
+		if number, isNumber := dataMap[key].(float64); isNumber && number < 0 {
+			return fmt.Errorf(`%v should be positive, not %v`, key, number)
+		}
+	}
+
 	_, err = marshmallow.UnmarshalFromJSONMap(dataMap, tm, marshmallow.WithExcludeKnownFieldsFromMap(true))
 	if err != nil {
 		return err
